@@ -67,6 +67,18 @@ fn gen_long_string(rng: &mut Rng) -> String {
             }
         }
     }
+    // control bytes that differ from CR / LF in one bit, between a CR and an LF
+    if rng.coin() {
+        let p = rng.below(len.saturating_sub(4).max(1));
+        if p + 3 < len && bytes[p..p + 4].iter().all(|b| *b != b'\r' && *b != b'\n') && (p == 0 || bytes[p - 1] != b'\r') && bytes.get(p + 4) != Some(&b'\n') {
+            bytes[p] = b'\r';
+            bytes[p + 1] = *rng.pick(&[0x0cu8, 0x0b, 0x0e, 0x0f]);
+            if rng.coin() {
+                bytes[p + 2] = 0x0c;
+            }
+            bytes[p + 3] = b'\n';
+        }
+    }
     // lone CR / LF elsewhere must not be paired up
     if rng.coin() {
         let p = rng.below(len);
@@ -87,10 +99,15 @@ fn gen_string(rng: &mut Rng) -> String {
     }
     let mut s = String::new();
     let ascii_only = rng.chance(1, 4);
-    let n = rng.range(0, 10);
+    // ASCII-only texts are also made longer than one machine word / vector register
+    let n = if ascii_only && rng.coin() { rng.range(8, 40) } else { rng.range(0, 10) };
     for _ in 0..n {
         if ascii_only {
-            s.push_str(*rng.pick(&["a", "b", " ", "\r", "\n", "\r\n", "x", "\t", "\u{b}", "\u{7f}"]));
+            // (including the bytes that differ from CR / LF in one bit)
+            s.push_str(*rng.pick(&[
+                "a", "b", " ", "\r", "\n", "\r\n", "x", "\t", "\u{b}", "\u{7f}", "\u{c}", "\u{c}", "\u{e}", "\u{8}", "\u{f}", "\u{5}", "\u{2}", "\u{1d}", "\u{1a}", "-", "M", "*",
+                "J", "\0", "\r\u{c}\n", "\r\u{b}\n",
+            ]));
         } else if rng.chance(1, 8) {
             // uniformly random scalar value
             loop {
